@@ -2698,3 +2698,42 @@ def filter_blob_files_registered(fns):
 
 
 SPECS["O17.4"] = [filter_blob_files_registered]
+
+
+# ---------------------------------------------------------------------------------------------
+# C09 O9.7: whoever extends an existing fragmentation entry extends all three of its counters
+# ---------------------------------------------------------------------------------------------
+
+def fragmentation_entry_updates(fns):
+    names = struct_fields(SRC_ROOT, "src/blob_tree/gc.rs", "FragmentationEntry")
+    if names != ["len", "bytes", "on_disk_bytes"]:
+        raise MirError("FragmentationEntry fields changed: %s" % names)
+    out = []
+    for f in fns:
+        if getattr(f, "skip", False) or not f.closure_span() or "tests" in f.name:
+            continue
+        if not re.search(r"_2: &mut (blob_tree::gc::)?FragmentationEntry\)", f.header) or re.search(r"-> bool", f.header):
+            continue
+        added = set()
+        for b in live_blocks(f):
+            for st in b.stmts:
+                m = re.match(r"^\(\(\*_2\)\.(\d+): (u64|usize)\) = move \((_\d+)\.0: (u64|usize)\)$", st)
+                if m:
+                    src = [s2 for bb in live_blocks(f) for s2 in bb.stmts if s2.startswith(m.group(3) + " = AddWithOverflow(copy ((*_2).%s:" % m.group(1))]
+                    if src:
+                        added.add(names[int(m.group(1))])
+        if not added:
+            continue
+        ok = added == set(names)
+        a = Automaton(f, "O9.7 %s adds to len, bytes and on_disk_bytes of the fragmentation entry it extends" % re.sub(r"<impl at (src/[^:]+):[^>]*>", r"\1", f.name)[-70:])
+        a.glue = [("fields increased: %s" % sorted(added), "proved" if ok else "refuted", 0.0)]
+        a.var("x")
+        a.event("ret:a counter of the entry is not increased", [] if ok else [b.idx for b in live_blocks(f) if b.kind == "return"])
+        a.require("ret:a counter of the entry is not increased", "false", "an existing fragmentation entry is extended without %s: the garbage statistics (stale_blob_bytes sums on_disk_bytes; is_dead compares bytes and len) drift from what the tables no longer reference" % sorted(set(names) - added))
+        out.append(a)
+    if len(out) < 3:
+        raise MirError("expected at least three closures that extend a FragmentationEntry (merge_into, on_dropped, with_dropped), found %d" % len(out))
+    return out
+
+
+SPECS["O9.7"] = [fragmentation_entry_updates]
